@@ -67,7 +67,7 @@ func c15Run(x *core.Ctx) {
 	for i := 0; i < ns; i++ {
 		sc := c08MakeSchema(r, i)
 		for j := 0; j < 8; j++ {
-			g := dgen.New(r, sc.mg, &dgen.Opts{MaxDepth: 1 + r.Intn(3), MaxOps: 1 + r.Intn(2), DeepValues: j%2 == 0})
+			g := dgen.New(r, sc.mg, &dgen.Opts{MaxDepth: 1 + r.Intn(3), MaxOps: 1 + r.Intn(2), DeepValues: j%2 == 0, Introspect: j%3 == 1})
 			doc := g.Doc()
 			if len(doc.Defs) == 0 {
 				continue
